@@ -9,6 +9,7 @@ SEEDS = [
     ('d2_debug_else', "if __debug__:\n    print('A')\nelse:\n    print('B')\n"),
     ('d2_debug_elif', "y=0\nif __debug__ is True:\n    print('A')\nelif y:\n    print('C')\nelse:\n    print('B')\n"),
     ('d3_doc_name', '"""doc"""\nprint(__doc__)\n'),
+    ('doc_printed_with_hoisting', '"""the module docstring"""\nfirst = "a repeated literal value"\nsecond = "a repeated literal value"\nthird = "a repeated literal value"\ndef show():\n    """function docstring"""\n    return show.__doc__, "a repeated literal value"\nclass Documented:\n    """class docstring"""\n    attribute = "a repeated literal value"\nprint(__doc__, show(), Documented.__doc__, first, second, third)\n'),
     ('d4_dataclass_nested', "from dataclasses import dataclass\n@dataclass\nclass A:\n    if True:\n        x: int = 1\nprint(A(2))\n"),
     ('d5_object_shadowed', "class object:\n    pass\nclass A(object):\n    pass\nprint(A.__mro__[1].__module__)\n"),
     ('d6_walrus_comp', "def f(d):\n    if any((found := i) > 1 for i in d):\n        return found\nprint(f([1, 2, 3]))\n"),
